@@ -41,6 +41,11 @@ def fmin (a b : α) : α :=
 def fmax (a b : α) : α :=
   if b ≤ a then a else if a ≤ b then b else if a ≤ a then a else b
 
+/-- `f64::clamp(lo, hi)` (a NaN argument stays NaN) -/
+def fclamp [LT α] [DecidableLT α] (x lo hi : α) : α :=
+  let x := if x < lo then lo else x
+  if x > hi then hi else x
+
 /-- IEEE `==` on floats (`NaN` is unequal to everything, `+0 == -0`). -/
 @[reducible] def feq (a b : α) : Prop := a ≤ b ∧ b ≤ a
 
